@@ -148,6 +148,28 @@ func init() {
 		}
 		return res
 	}
+	// two coders of the same parity length alive at once, their writes interleaved: `rs.enc2 n hexA k hexB`
+	ops["rs.enc2"] = func(a []string) string {
+		n, k := atoi(a[0]), atoi(a[2])
+		ma, mb := parseHex(a[1]), parseHex(a[3])
+		if k > len(ma) {
+			k = len(ma)
+		}
+		ha := reedsolomon.New(n)
+		ha.Write(ma[:k])
+		hb := reedsolomon.New(n)
+		hb.Write(mb)
+		ha.Write(ma[k:])
+		sa := ha.Sum(nil)
+		other := reedsolomon.New(n) // a third coder created after the sums must not disturb them either
+		_ = other
+		sb := hb.Sum(nil)
+		sa2 := ha.Sum(nil)
+		if hexOf(sa) != hexOf(sa2) {
+			return "ok " + hexOf(sa) + " " + hexOf(sb) + " SUM-CHANGED-BY-NEW " + hexOf(sa2)
+		}
+		return "ok " + hexOf(sa) + " " + hexOf(sb)
+	}
 	ops["rs.dec"] = func(a []string) string {
 		data := parseHex(a[1])
 		if err := reedsolomon.Decode(data, atoi(a[0])); err != nil {
